@@ -720,7 +720,7 @@ pub fn run(cfg: &Config, s: &mut Session) {
         0x1FF,
         0x1FF,
     ];
-    let rounds = if cfg.thorough() { 12 } else { 1 };
+    let rounds = if cfg.thorough() { 12 } else { 3 };
     crate::FRESH_INSTANCE_PER_GLYPH.store(true, std::sync::atomic::Ordering::Relaxed);
     for r in 0..rounds {
         for (i, &features) in families.iter().enumerate() {
